@@ -95,7 +95,8 @@ DIMENSIONS = {
         "ops": {"contains": "N query (C16)", "intersection": "N", "overlaps": "N"},
     },
     "commonroad.common.util.AngleInterval": {
-        "ctor": {"start": "V", "end": "V length < 2 pi"},
+        "ctor": {"start": "V incl. -pi cut off after d decimals, the writer's grid, an exponent-form repr beside zero",
+                 "end": "V length < 2 pi, incl. within 4 units of the writer's last decimal of 2 pi at every precision (ori/near-full-circle-*)"},
         "set": {"start": "V hist reassign", "end": "V hist reassign"},
         "ops": {"contains": "N", "intersect": "N", "intersection": "N", "overlaps": "N"},
     },
